@@ -1608,8 +1608,9 @@ def _make_safe(c):
 from contracts import c03_flow  # noqa: E402
 
 from contracts import c03_sections  # noqa: E402
+from contracts import c03_docx  # noqa: E402
 
-EXTRA = [c03_flow.construction_sites, c03_flow.independence_sites, c03_flow.heading_iterators, c03_sections.odt_step, c03_sections.native_sections,
+EXTRA = [c03_flow.construction_sites, c03_flow.independence_sites, c03_flow.slide_text_navigation, c03_flow.heading_iterators, c03_docx.obligations, c03_sections.odt_step, c03_sections.native_sections,
          c03_sections.native_documents, c03_sections.slide_text_fragments]
 known_findings = c03_sections.known_findings
 REPLAY_UNKNOWN = True    # an obligation the solver leaves unknown is searched natively (replay/C03.py) before it is reported undecided
